@@ -180,6 +180,41 @@ func httpEngGen(rng *rand.Rand, n int, emit func(string)) {
 		return fmt.Sprintf("req %d %s %s %s %s %s %s %s %s %d %s %s %s", cli, form, method, hx(host), hx(path), q, uq,
 			httpGenHdrTok(hdrs), body, st, httpGenHdrTok(rh), rb, keep)
 	}
+	// time lines of timed exchanges (ResponseHeaderTimeoutS = 1 ⇒ T = 1000 ms). Classes: whole exchange
+	// well inside T / one phase (upload, download, tunnel idling) alone longer than T / phases each
+	// shorter than T that add up to more than T / header block late but inside T followed by a long body.
+	// Nothing is placed within 600 ms of T (real timers; the header wait is 0..300 ms or 1700 ms).
+	gapList := func(total, k int) string {
+		// k gaps that add up to about `total` ms: even / front-loaded / back-loaded / one long pause
+		g := make([]int, k)
+		switch rng.Intn(4) {
+		case 0:
+			for i := range g {
+				g[i] = total / k
+			}
+		case 1:
+			g[0] = total
+		case 2:
+			g[k-1] = total
+		default:
+			g[rng.Intn(k)] = total
+		}
+		p := make([]string, k)
+		for i, x := range g {
+			p[i] = fmt.Sprint(x)
+		}
+		return strings.Join(p, ".")
+	}
+	long := func() int { return 1300 + 100*rng.Intn(6) } // 1.3 … 1.8 s: longer than T with slack
+	short := func() int { return 100 * rng.Intn(4) }     // 0 … 0.3 s
+	okRoute := func() (httpGenRoute, bool) {
+		for try := 0; try < 8; try++ {
+			if r, ok := anyRoute(); ok && r.mode == "ok" {
+				return r, true
+			}
+		}
+		return httpGenRoute{}, false
+	}
 	silentDone := false
 	for i := 0; i < n; i++ {
 		k := rng.Intn(1000)
@@ -208,6 +243,102 @@ func httpEngGen(rng *rand.Rand, n int, emit func(string)) {
 				}
 			} else {
 				emit(fmt.Sprintf("unreg %s %s %s", hx(pick(rng, httpGenDomains)), hx(pick(rng, httpGenLocs)), hx(pick(rng, httpGenUsers))))
+			}
+		case k >= 866 && k < 872:
+			// TIMED request / answer: paced upload, late header block, paced download
+			r, ok := okRoute()
+			if !ok {
+				continue
+			}
+			method := pick(rng, []string{"GET", "GET", "POST", "PUT"})
+			hdrs := httpGenPickSome(rng, httpGenReqHdrs, 3, false)
+			if r.usr != "" {
+				hdrs = append(hdrs, [2]string{"Authorization", httpEngBasic(r.usr)})
+			}
+			sized := func(kind string) string { return kind + ":" + httpEngTok(rng.Intn(100000), 1+rng.Intn(20000)) }
+			body, upg := "-", "-"
+			think, dng := short(), "-"
+			cls := rng.Intn(8)
+			if method != "GET" {
+				body = sized(pick(rng, []string{"cl", "ch"}))
+				switch cls {
+				case 0, 1: // the upload alone outlasts T
+					upg = gapList(long(), 1+rng.Intn(4))
+				case 2, 3, 4: // upload and download each inside T, together beyond
+					upg = gapList(700, 1+rng.Intn(3))
+				case 5:
+					upg = gapList(short(), 1+rng.Intn(3))
+				}
+			}
+			rb := sized(pick(rng, []string{"cl", "cl", "ch", "ch", "eof"}))
+			switch cls {
+			case 0, 6: // the download alone outlasts T
+				dng = gapList(long(), 1+rng.Intn(5))
+			case 1, 5:
+				dng = gapList(short(), 1+rng.Intn(3))
+			case 2, 3, 4:
+				dng = gapList(700, 1+rng.Intn(3))
+			default: // header block too late: the gateway-timeout answer
+				if rng.Intn(3) == 0 {
+					think = 1700
+				} else {
+					dng = gapList(long(), 2)
+				}
+			}
+			st := pick(rng, []int{200, 200, 201, 404, 500})
+			keep := "1"
+			if rng.Intn(4) == 0 || strings.HasPrefix(rb, "eof") {
+				keep = "0"
+			}
+			uq := "-"
+			if r.usr != "" {
+				uq = hx(r.usr)
+			}
+			form := "o"
+			if rng.Intn(8) == 0 {
+				form = "a"
+			}
+			path := "/"
+			if r.loc != "" {
+				path = r.loc
+			}
+			emit(fmt.Sprintf("treq %d %s %s %s %s - %s %s %s %d %s %s %s %s %d %s", rng.Intn(3), form, method, hx(httpGenHost(rng, r.domain)),
+				hx(strings.TrimSuffix(path, "/")+pick(rng, []string{"/", "/", "/x", "/b%20c"})), uq, httpGenHdrTok(hdrs), body, st,
+				httpGenHdrTok(httpGenPickSome(rng, httpGenRespHdrs, 3, false)), rb, keep, upg, think, dng))
+		case k >= 872 && k < 876:
+			// TIMED tunnels: rounds of (user idles, sends; backend idles, answers)
+			r, ok := okRoute()
+			if !ok {
+				continue
+			}
+			rounds := 1 + rng.Intn(3)
+			g := make([]string, 2*rounds)
+			for j := range g {
+				g[j] = "0"
+			}
+			switch rng.Intn(4) {
+			case 0: // idles that add up to more than T, none of them longer than T
+				for j := range g {
+					g[j] = fmt.Sprint(1500 / (2 * rounds))
+				}
+			case 1: // everything well inside T
+				g[rng.Intn(len(g))] = fmt.Sprint(short())
+			default: // one idle period longer than T: before the first byte, inside a round, between rounds
+				g[rng.Intn(len(g))] = fmt.Sprint(long())
+			}
+			uq := "-"
+			if r.usr != "" {
+				uq = hx(r.usr)
+			}
+			up, dn := httpEngTok(rng.Intn(1000), rng.Intn(5000)), httpEngTok(rng.Intn(1000), rng.Intn(5000))
+			if rng.Intn(4) == 0 {
+				emit(fmt.Sprintf("tconnect %s %s %s %s %s", hx(concreteHost(rng, r.domain)+pick(rng, []string{":80", ":443"})), uq, up, dn, strings.Join(g, ".")))
+			} else {
+				path := "/"
+				if r.loc != "" {
+					path = r.loc
+				}
+				emit(fmt.Sprintf("tws %s %s %s %s %s %s", hx(httpGenHost(rng, r.domain)), hx(path), uq, up, dn, strings.Join(g, ".")))
 			}
 		case k < 880:
 			d := pick(rng, httpGenDomains)
